@@ -69,6 +69,11 @@ def smiles_pool(ctx, rt, stereo=False, aromatic=False, n_data=None):
             if r not in seen:
                 seen.add(r)
                 out.append(r)
+        for _k in range(2):
+            r = gens.digits_after_branches(rng, rng.choice(out[-3:]) if out else smi)
+            if r and r not in seen:
+                seen.add(r)
+                out.append(r)
     ctx.distribution["smiles_pool"] = {"seeds": len(base), "spellings": len(out)}
     return out
 
@@ -88,7 +93,12 @@ def run_encoder_stream(ctx, rt, name, smiles_list, tname, table, flags="s", judg
         idx.append(s)
         ctx.evaluations += 1
         if judge is not None:
-            judge(s, r, tname, table)
+            try:
+                judge(s, r, tname, table)
+            except Exception as e:  # noqa  (the library raised inside the property predicate: a symptom, not an infrastructure error)
+                add_violation(ctx, ctx.prop + ":predicate-raised:" + type(e).__name__,
+                              "evaluating the property predicate on the real code raised " + type(e).__name__,
+                              input=s[:300], table=table, result=r[:200])
     bad = rt.corr("%s[%s,%s]" % (name, tname, flags), lines, expected,
                   show=lambda i: {"smiles": idx[i - 1] if i > 0 else None, "table": tname, "flags": flags})
     return [idx[i - 1] for i in bad if i > 0]
@@ -192,6 +202,18 @@ def check_C04(ctx, rt):
     pool += ["F/C=C/1CCCC\\1", "F/C=C1/CCCC1", "C/1=C/CCCCCC1", "F/C=C\\1CCCC/1", "C\\1CCCC/C=C1",
              "[C@]1(F)(Cl)CCC1", "[C@@]12(F)CCC1CCC2", "N[C@]12CC[C@@](O)(CC1)C2", "[C@H]1(F)CC[C@@H]1Cl",
              "[C@@H]12CC[C@H](C1)C2", "C[C@@]12CCC[C@]1(C)CC2", "O[C@@H]1[C@H]2CC[C@@H]1C2"]
+    moved = []
+    for smi in list(pool):
+        if "@" in smi and any(ch.isdigit() for ch in smi):
+            for _k in range(rt.n(3, 10)):
+                r = gens.digits_after_branches(rt.rng, smi)
+                if r:
+                    moved.append(r)
+    pool += [s_ for s_ in dict.fromkeys(moved) if s_ not in set(pool)]
+    pool += ["OC1CC[C@](F)(Cl)1", "OC1CC[C@@H](F)1", "C(C[C@H]12)(OC2)CC1", "[C@]12(F)CC(C2)1", "[C@](F)(Cl)(Br)1CCC1",
+             "C[C@](F)1CC1", "[C@H](F)1CCC1"]
+    pool = [s_ for s_ in pool if s_]
+    ctx.distribution["digits_after_branches"] = len(moved)
     judge = roundtrip_judge(ctx, "C04")
     try:
         run_encoder_stream(ctx, rt, "stereo-enc", pool, "relaxed", relaxed(sf), flags="s", judge=judge)
@@ -348,6 +370,7 @@ def check_C05(ctx, rt):
                 "the independent reader, acceptance and canonical result compared across atom orders; "
                 "distinct = distinct graphs + distinct aromatic spellings")
     lines, expected = [], []
+    pending = []
     nmax = rt.n(6, 7)
     extra = [F9_WITNESS] + [random_subcubic(rt.rng, rt.rng.choice([8, 10, 12, 14, 20, 30])) for _ in range(rt.n(4000, 150000))]
     for adj in itertools.chain(small_graphs(nmax), extra):
@@ -366,15 +389,20 @@ def check_C05(ctx, rt):
         ctx.distinct.add(graph_wire(adj))
         exists = has_perfect_matching(adj) if (len(adj) <= 14 or m is None) else True
         bip = is_bipartite(adj)
+        pending.append((adj, m, r, exists, bip))
+    bad = set(rt.corr("find_perfect_matching", lines, expected))
+    for i, (adj, m, r, exists, bip) in enumerate(pending):
+        # finding F9 is the behaviour of the REFERENCE algorithm (BFS without blossoms, the Lean model with the
+        # recorded tape) on non-bipartite graphs; a failure on which the code differs from the reference is new
+        ref = ":nonbipartite" if (not bip and i not in bad) else (":bipartite" if bip else ":nonbipartite-differs-from-reference")
         if r.startswith("err"):
             add_violation(ctx, "C05:matching-exception", "find_perfect_matching raised", graph=adj, error=r)
         elif m is not None and not valid_matching(adj, m):
-            add_violation(ctx, "C05:non-matching" + (":nonbipartite" if not bip else ":bipartite"),
+            add_violation(ctx, "C05:non-matching" + ref,
                           "find_perfect_matching returned something that is not a perfect matching", graph=adj, result=m)
         elif m is None and exists:
-            add_violation(ctx, "C05:false-none" + (":nonbipartite" if not bip else ":bipartite"),
+            add_violation(ctx, "C05:false-none" + ref,
                           "find_perfect_matching returned None although a perfect matching exists", graph=adj)
-    rt.corr("find_perfect_matching", lines, expected)
     ctx.exhaustive = True
     # aromatic systems in many atom orders
     pool = list(gens.AROMATIC_SEEDS)
@@ -439,6 +467,12 @@ def check_C06(ctx, rt):
             "C#C", "C=C=C", "[Na+].[Cl-]", "[Na]Cl", "F[Xe](F)(F)F", "[Si](C)(C)(C)(C)C", "c1ccccc1", "[nH]1cccc1", "C1CC1",
             "[H][H]", "[H]C", "[H](C)C", "[2H]O[2H]", "[13CH4]", "N#N", "[N+](=O)([O-])C", "N(=O)(=O)C", "Br(C)C", "[I-]", "[I-]C"]
     pool = base + gens.dataset_smiles(rt.rng, rt.n(8, 150))
+    pairs = gens.capacity_pairs(rt.rng)
+    pool += pairs[:rt.n(500, 1440)]
+    # random two-fragment combinations of the base molecules, both orders
+    for _k in range(rt.n(150, 2000)):
+        a_, b_ = rt.rng.sample(base, 2)
+        pool.append(a_ + "." + b_)
     tabs = gens.tables(rt.rng, sf, rt.n(8, 120))
     try:
         nonstrict = {}
@@ -486,7 +520,7 @@ def check_C06(ctx, rt):
                     if why is not None:
                         add_violation(ctx, "C06:silent-change", "strict encoding decodes to a different molecule: " + why,
                                       smiles=smi, table=table_, output=out)
-            chunk = pool if tname in ("default", "octet_rule", "hypervalent", "relaxed") else rt.rng.sample(pool, min(len(pool), 40))
+            chunk = pool if tname in ("default", "octet_rule", "hypervalent", "relaxed") else rt.rng.sample(pool, min(len(pool), 120))
             run_encoder_stream(ctx, rt, "strict", chunk, tname, tab, flags="s", judge=judge)
             run_encoder_stream(ctx, rt, "nonstrict", chunk[:60], tname, tab, flags="-")
         ctx.sample({"smiles": "S(F)(F)(F)(F)(F)(F)F", "tables": [t[0] for t in tabs[:6]]})
@@ -809,7 +843,8 @@ def run_history(ctx, rt, rng, n_ops, translate=True, mutate_alphabet=False):
     lines, expected, script = ["c.reset"], ["ok"], []
     held = []        # (kind, object)
     probes_dec = ["[C][#C]", "[S][=O][=O][=O]", "[N][C][C][C][C]", "[Cl][=O]", "[C][Cl][C]", "[P][F][F][F][F][F][F]",
-                  "[Fe][C][C]", "[N+1][C][C][C][C][C]", "[O][=C][=O]", "[I][I][I]"]
+                  "[Fe][C][C]", "[N+1][C][C][C][C][C]", "[O][=C][=O]", "[I][I][I]", "[SH5][C]", "[C][CH3]", "[C][NH3][C]",
+                  "[PH4][F]", "[C][OH1][C]", "[C][ClH1][C]", "[NH4+1]", "[C][Branch1][C][SH4][O]"]
     probes_enc = ["CS(=O)(=O)C", "C[N+](C)(C)C", "ClC", "FP(F)(F)(F)F", "c1ccccc1", "[Fe]C"]
     for _ in range(n_ops):
         r = rng.random()
